@@ -10,6 +10,10 @@ thread_local! {
     /// Completed executions that have not been consumed yet.
     static DONE: RefCell<Vec<Vec<String>>> = const { RefCell::new(Vec::new()) };
     static OPEN: RefCell<bool> = const { RefCell::new(false) };
+    /// the scheduler calls of the execution in progress, as the recorder saw them (None = random draw)
+    static OWN: RefCell<(u64, Vec<Option<usize>>)> = const { RefCell::new((0, Vec::new())) };
+    static DONE_SCHED: RefCell<Vec<(String, bool)>> = const { RefCell::new(Vec::new()) };
+    static PLAIN: RefCell<bool> = const { RefCell::new(false) };
     static LAST_CH: RefCell<i64> = const { RefCell::new(0) };
 }
 
@@ -27,6 +31,21 @@ pub fn finish_exec(end: serde_json::Value) {
         return;
     }
     log(end);
+    // the runtime's own record of this execution (still in place until the next execution starts)
+    let sched = shuttle_engine::runtime::execution::CurrentSchedule::get_schedule();
+    let own_ok = OWN.with(|o| {
+        let o = o.borrow();
+        use shuttle_engine::scheduler::ScheduleStep;
+        sched.seed == o.0
+            && sched.steps.len() == o.1.len()
+            && sched.steps.iter().zip(o.1.iter()).all(|(a, b)| match (a, b) {
+                (ScheduleStep::Task(t), Some(x)) => usize::from(*t) == *x,
+                (ScheduleStep::Random, None) => true,
+                _ => false,
+            })
+    });
+    let ser = shuttle_engine::scheduler::serialization::serialize_schedule(&sched);
+    DONE_SCHED.with(|d| d.borrow_mut().push((ser, own_ok)));
     let evs = CUR.with(|c| std::mem::take(&mut *c.borrow_mut()));
     DONE.with(|d| d.borrow_mut().push(evs));
     OPEN.with(|o| *o.borrow_mut() = false);
@@ -48,12 +67,31 @@ pub fn finish_exec_quiet() {
 }
 
 pub fn take_done() -> Vec<Vec<String>> {
+    DONE_SCHED.with(|d| d.borrow_mut().clear());
     DONE.with(|d| std::mem::take(&mut *d.borrow_mut()))
+}
+
+/// (events, serialized schedule as recorded by the runtime, does it equal the scheduler calls seen?)
+pub fn take_done_full() -> Vec<(Vec<String>, String, bool)> {
+    let evs = DONE.with(|d| std::mem::take(&mut *d.borrow_mut()));
+    let sch = DONE_SCHED.with(|d| std::mem::take(&mut *d.borrow_mut()));
+    evs.into_iter().zip(sch).map(|(e, (s, ok))| (e, s, ok)).collect()
+}
+
+/// Collect the bodies' own log lines without a recorder around the scheduler.
+pub fn open_plain() {
+    PLAIN.with(|p| *p.borrow_mut() = true);
+}
+
+pub fn take_plain() -> Vec<String> {
+    PLAIN.with(|p| *p.borrow_mut() = false);
+    CUR.with(|c| std::mem::take(&mut *c.borrow_mut()))
 }
 
 pub fn reset_log() {
     CUR.with(|c| c.borrow_mut().clear());
     DONE.with(|d| d.borrow_mut().clear());
+    DONE_SCHED.with(|d| d.borrow_mut().clear());
     OPEN.with(|o| *o.borrow_mut() = false);
 }
 
@@ -80,6 +118,10 @@ impl<S: Scheduler> Scheduler for Recorder<S> {
             Some(s) => {
                 OPEN.with(|o| *o.borrow_mut() = true);
                 LAST_CH.with(|l| *l.borrow_mut() = 0);
+                OWN.with(|o| *o.borrow_mut() = (s.seed, s.steps.iter().map(|st| match st {
+                    shuttle_engine::scheduler::ScheduleStep::Task(t) => Some(usize::from(*t)),
+                    shuttle_engine::scheduler::ScheduleStep::Random => None,
+                }).collect()));
                 log(json!({"e":"exec","p":self.prog,"seed":s.seed.to_string(),"pre":s.steps.len()}));
             }
             None => {}
@@ -107,6 +149,9 @@ impl<S: Scheduler> Scheduler for Recorder<S> {
         let ch = self.inner.next_task(runnable, current, is_yielding);
         let chv: i64 = ch.map(|t| usize::from(t) as i64).unwrap_or(-1);
         LAST_CH.with(|l| *l.borrow_mut() = chv);
+        if let Some(t) = ch {
+            OWN.with(|o| o.borrow_mut().1.push(Some(usize::from(t))));
+        }
         let cur: i64 = current.map(|t| usize::from(t) as i64).unwrap_or(-1);
         log(json!({"e":"dec","run":run,"sp":sp,"nr":nr,"det":det,"cur":cur,"y":is_yielding,"ch":chv}));
         ch
@@ -114,7 +159,8 @@ impl<S: Scheduler> Scheduler for Recorder<S> {
 
     fn next_u64(&mut self) -> u64 {
         let v = self.inner.next_u64();
-        log(json!({"e":"rnd","v":v.to_string()}));
+        OWN.with(|o| o.borrow_mut().1.push(None));
+        log(json!({"e":"rnd","v":v.to_string(),"m":v % 4}));
         v
     }
 }
